@@ -159,7 +159,7 @@ class ScriptGen:
         self.cfg = cfg or {}
         self.unique_sites = unique_sites
         with tape.span("plain_func_names"):
-            self.plain_func_names = bool(self.F.adv_names and tape.chance(0.3, "plain_func_names"))
+            self.plain_func_names = bool(self.F.adv_names and tape.chance(0.4, "plain_func_names"))
         self.func_alias = {}
         self.site_n = 0
         self.max_ops = max_ops
@@ -716,8 +716,11 @@ class ScriptGen:
                 h = "$f%d" % self.fresh_n
                 self.fresh_n += 1
                 self.fresh_handles.append(h)
-                out.append(("fresh", h, FRESH_PREFIXES[t.weighted([4, 1, 1, 1, 1, 3], "fp")],
-                            bool(t.draw(2, "fvapi"))))
+                prefix = FRESH_PREFIXES[t.weighted([4, 1, 1, 1, 1, 3], "fp")]
+                if not self.cfg and F.adv_names and t.chance(0.15, "fp_read"):
+                    # prefix spelled like a name the phase has only read so far (resolved when applied)
+                    prefix = "@read"
+                out.append(("fresh", h, prefix, bool(t.draw(2, "fvapi"))))
             return out
         if k == 8:
             opts = []
@@ -965,6 +968,13 @@ def _apply_one(cb, op, ap, phase_name):
         elif k == "fresh":
             _, h, prefix, use_var = op
             before = len(cb.statements)
+            if prefix == "@read":
+                rd, wr = set(), set()
+                for st in cb.statements:
+                    rd |= set(st.get_read_variables())
+                    wr |= set(st.get_written_variables())
+                only_read = sorted(v for v in rd - wr if v.startswith(("<p>", "<state>")) or v in ("<t>", "<dt>"))
+                prefix = only_read[0] if only_read else "temp"
             if use_var:
                 name = cb.fresh_var(prefix).name
             else:
